@@ -87,8 +87,9 @@ def generate(rng, index, tier):
             extra = []
             if rng.chance(0.3):
                 extra.append(worlds.op_single(rng, 'MACH_MKRUNNABLE'))
-            if rng.chance(0.15):
-                extra.append({'k': 'raw', 'id': 0x25020014, 'q': 0, 'a': rng.words()})   # PERF_STK_KData: kernel stack words
+            if rng.chance(0.3):
+                near = [k for k, _v in worlds.catalog()['undecoded'] if (k >> 16) in (0x2502, 0x2501, 0x2500)] or [0x25020014]
+                extra.append({'k': 'raw', 'id': rng.pick(near), 'q': 0, 'a': rng.words()})   # kernel-stack header/data, stack error, ... (named, not decoded)
             ops.append(worlds.op_sample(rng, flags=flags, thd=(77, rng.pick([500 + si, 400, 501 - si, 31337])) if rng.chance(0.4) else None, uhdr=uhdr,
                                         udata=rows, extra=extra))
             if rng.chance(0.2):
